@@ -11,6 +11,7 @@ import (
 	"os"
 	"path/filepath"
 	"sync"
+	"sync/atomic"
 	"time"
 
 	"github.com/theparanoids/ysshra/agent/shimagent"
@@ -54,6 +55,13 @@ const faultMark = 0xEE
 // slowMark: first byte of a raw request that the upstream answers (with the usual echo) only after the number of
 // milliseconds given in the next two bytes - a helper behind the agent that takes its time (a token waiting for a touch)
 const slowMark = 0xED
+
+// countMark: first byte of a raw request that the upstream answers, after the number of milliseconds given in the next
+// two bytes, with the usual echo followed by the running number of such requests it has served: a request whose reply
+// depends on the agent's state (as removing a smartcard key does - success the first time, failure the second)
+const countMark = 0xEB
+
+var countServed uint64
 
 func startUpstream() (*upstream, error) {
 	dir, err := os.MkdirTemp("", "verif-c11-")
@@ -108,6 +116,16 @@ func (u *upstream) serve(c net.Conn) {
 			o := &oneShot{in: bytes.NewReader(frame), out: &bytes.Buffer{}}
 			_ = agent.ServeAgent(u.keyring, o)
 			reply = o.out.Bytes()
+		case countMark:
+			if len(req) >= 3 {
+				time.Sleep(time.Duration(int(req[1])<<8|int(req[2])) * time.Millisecond)
+			}
+			var n [8]byte
+			binary.BigEndian.PutUint64(n[:], atomic.AddUint64(&countServed, 1))
+			body := append(append([]byte{echoMark}, req...), n[:]...)
+			reply = make([]byte, 4+len(body))
+			binary.BigEndian.PutUint32(reply, uint32(len(body)))
+			copy(reply[4:], body)
 		case slowMark:
 			if len(req) >= 3 {
 				time.Sleep(time.Duration(int(req[1])<<8|int(req[2])) * time.Millisecond)
